@@ -180,6 +180,9 @@ class Registry:
             if isinstance(node, ast.Constant) and isinstance(node.value, (str, int, bool)):
                 c = node.value
                 return vstr(c) if isinstance(c, str) else vbool(c) if isinstance(c, bool) else vint(c)
+            if isinstance(node, ast.Tuple) and node.elts and all(isinstance(e, ast.Constant) and isinstance(e.value, str) for e in node.elts):
+                # a module-level tuple of string literals (e.g. DEFAULT_EXCLUSIONS): a concrete tuple
+                return V(("tuple", tuple(("str",) for _ in node.elts)), tuple(vstr(e.value) for e in node.elts))
         if name in ("True", "False"):
             return vbool(name == "True")
         if modctx is not None and (name in modctx.classes or (name in modctx.imports and name[:1].isupper())):
@@ -299,6 +302,24 @@ class Registry:
                     kwargs = {k.arg: v for k, v in zip(node.keywords, vs[len(node.args):])}
                     out += self.apply_contract(eng, c, args, kwargs, s, node)
                 return out
+            # package.module.function(...), e.g. os.path.dirname: a dotted chain rooted in an imported module, resolved to a contract keyed by the dotted name
+            if isinstance(f.value, ast.Attribute):
+                chain, base = [f.attr], f.value
+                while isinstance(base, ast.Attribute):
+                    chain.append(base.attr)
+                    base = base.value
+                if (isinstance(base, ast.Name) and base.id not in st.vars and base.id not in eng.bound and eng.mod is not None
+                        and base.id in eng.mod.imports and eng.mod.imports[base.id][1] is None):
+                    dotted = ".".join([eng.mod.imports[base.id][0]] + chain[::-1])
+                    c = self.contracts.get(dotted)
+                    if c is None:
+                        raise OutOfSubset(f"no contract for library function {dotted} (line {node.lineno})")
+                    out = []
+                    for s, vs in eng.ev_seq(list(node.args) + [k.value for k in node.keywords], st):
+                        args = vs[:len(node.args)]
+                        kwargs = {k.arg: v for k, v in zip(node.keywords, vs[len(node.args):])}
+                        out += self.apply_contract(eng, c, args, kwargs, s, node)
+                    return out
             # cls.method(...) / ClassName.method(...)
             if isinstance(f.value, ast.Name) and (f.value.id == "cls" or (f.value.id not in st.vars and f.value.id not in eng.bound and self.is_class(f.value.id, eng))):
                 clsname = eng.cls if f.value.id == "cls" else f.value.id
@@ -322,6 +343,35 @@ class Registry:
         raise OutOfSubset(f"call of {type(f).__name__}")
 
     def call_starred(self, eng, node, st):
+        """f(a, ..., **mapping) / obj.m(a, ..., **mapping): modelled only when the mapping is the ONLY keyword part and the callee's contract declares which
+        parameter receives it (opts 'star_kwargs:<param>'; the callee gets its own copy, so mutations of it are not written back). Everything else is refused."""
+        if any(isinstance(a, ast.Starred) for a in node.args) or len(node.keywords) != 1 or node.keywords[0].arg is not None:
+            raise OutOfSubset(f"starred call at line {node.lineno}")
+        mapping_expr = node.keywords[0].value
+        f = node.func
+
+        def apply(c, args, mapping, s, self_expr):
+            star = [o.split(":", 1)[1] for o in c.opts if o.startswith("star_kwargs:")]
+            if len(star) != 1 or mapping.t[0] != "dict" or mapping.x is None:
+                raise OutOfSubset(f"**mapping passed to {c.key}, whose contract declares no star_kwargs parameter (line {node.lineno})")
+            return self.apply_contract(eng, c, args, {star[0]: mapping}, s, node, self_expr=self_expr)
+        out = []
+        if isinstance(f, ast.Name) and f.id not in st.vars and f.id not in eng.bound:
+            c = self.contracts.get(f.id)
+            if c is None:
+                raise OutOfSubset(f"call of unknown function {f.id} at line {node.lineno}")
+            self.check_resolution(eng, f.id, c)
+            for s, vs in eng.ev_seq(list(node.args) + [mapping_expr], st):
+                out += apply(c, vs[:-1], vs[-1], s, None)
+            return out
+        if isinstance(f, ast.Attribute):
+            for s, vs in eng.ev_seq([f.value] + list(node.args) + [mapping_expr], st):
+                fam = self.family_of(vs[0])
+                c = self.lookup_method(fam, f.attr) if fam is not None else None
+                if c is None or c.kind != "method":
+                    raise OutOfSubset(f"no contract for {fam}.{f.attr} (line {node.lineno})")
+                out += apply(c, vs[:-1], vs[-1], s, f.value)
+            return out
         raise OutOfSubset(f"starred call at line {node.lineno}")
 
     def is_class(self, name, eng):
@@ -844,6 +894,11 @@ class Registry:
         cs = State()
         cs.pc = st.pc  # shared: assumptions land in the caller
         for n in pnames:
+            if n not in bound and n.startswith("ghost_"):
+                # ghost state (a log of calls into an assumed library): never passed by the code, threaded from the caller's ghost parameter of the same name
+                if n not in st.vars:
+                    raise ContractDrift(f"{c.key}: ghost state {n} is not threaded through the caller (declare it as a ghost parameter of the caller's contract)")
+                bound[n] = st.vars[n]
             if n not in bound:
                 if n not in c.defaults:
                     raise ContractDrift(f"{c.key}: missing argument {n}")
@@ -977,6 +1032,8 @@ class Registry:
                 st.assume(t)
             # write back mutated arguments
             for m in c.modifies:
+                if f"star_kwargs:{m}" in c.opts:
+                    continue   # the callee's **kwargs dict is its own copy
                 idx = pnames.index(m)
                 self.write_back(eng, st, node, idx, m, cs.vars[m], self_expr)
             out.append((st, res))
@@ -1065,6 +1122,9 @@ class Registry:
         return v.found
 
     def write_back(self, eng, st, node, idx, pname, newval, self_expr):
+        if pname.startswith("ghost_"):
+            st.vars[pname] = newval
+            return
         is_method = self_expr is not None
         if is_method and idx == 0:
             target = self_expr
